@@ -7,8 +7,9 @@ d=$1; wt=$2; out=$d/confirm.log
 cd $wt && git checkout -q -- . && git apply $d/patch.diff || { echo "APPLY-FAILED" >> $out; exit 1; }
 cargo build --offline --features numtraits,rand >/dev/null 2>&1 && echo "build(numtraits,rand) with patch: ok" >> $out || echo "build with patch: FAILED" >> $out
 cargo test --workspace --no-fail-fast --offline 2>&1 | grep -E "^test result" >> $out
-( cd $d/demo && cargo run --offline >/dev/null 2>&1; echo "demo with patch: exit $?" ) >> $out
+prof=$(python3 -c "import json;print(json.load(open(\"$d/meta.json\")).get(\"demo_profile\",\"debug\"))"); flag=""; [ "$prof" = "release" ] && flag="--release"
+( cd $d/demo && cargo run --offline $flag >/dev/null 2>&1; echo "demo ($prof) with patch: exit $?" ) >> $out
 git checkout -q -- .
-( cd $d/demo && cargo run --offline >/dev/null 2>&1; echo "demo without patch: exit $?" ) >> $out
+( cd $d/demo && cargo run --offline $flag >/dev/null 2>&1; echo "demo ($prof) without patch: exit $?" ) >> $out
 git status --short >> $out
 cat $out
